@@ -375,6 +375,22 @@ type tranState struct {
 	// offsets of earlier versions of rows this transaction has updated itself
 	// (table + first key of the current row -> offset before the first update)
 	staleOff map[string]uint64
+	// table definitions as the transaction showed them when it began (C02:
+	// the definition is part of the snapshot; admin requests commit meanwhile)
+	schemas map[string]string
+}
+
+// schemaOf: the table definition as this transaction shows it.
+func (ts *tranState) schemaOf(table string) (s string) {
+	defer func() {
+		if e := recover(); e != nil {
+			s = fmt.Sprint("panic: ", e)
+		}
+	}()
+	if ts.ut != nil {
+		return ts.ut.GetSchema(table).String()
+	}
+	return ts.rt.GetSchema(table).String()
 }
 
 func (ts *tranState) isUpdate() bool { return ts.ut != nil }
@@ -867,6 +883,10 @@ func (r *run) begin(slot int, update bool) *tranState {
 		}
 	} else {
 		ts.rt = r.db.NewReadTran()
+	}
+	ts.schemas = map[string]string{}
+	for _, td := range r.w.Tables {
+		ts.schemas[td.Name] = ts.schemaOf(td.Name)
 	}
 	r.slots[slot] = ts
 	r.logf("  #%d begin %s", ts.id, map[bool]string{true: "update", false: "read"}[update])
@@ -1714,6 +1734,15 @@ func firstWords(s string, n int) string {
 }
 
 func (r *run) reread(ts *tranState) {
+	for _, td := range ts.w.Tables {
+		if got := ts.schemaOf(td.Name); got != ts.schemas[td.Name] {
+			r.label("schema_changed_within_transaction")
+			r.violate(fmt.Sprintf("transaction #%d: the definition of %s was %q when the transaction began and is %q now", ts.id, td.Name, ts.schemas[td.Name], got), "C02")
+		}
+	}
+	if r.nAdminOK > 0 {
+		r.label("reread_after_accepted_admin_request")
+	}
 	for _, e := range ts.events {
 		if e.read == nil {
 			continue
